@@ -1642,6 +1642,7 @@ static Node *stmt(Token **rest, Token *tok) {
     Node *node = new_node(ND_SWITCH, tok);
     tok = skip(tok->next, "(");
     node->cond = expr(&tok, tok);
+    add_type(node->cond);
     tok = skip(tok, ")");
 
     Node *sw = current_switch;
@@ -1668,7 +1669,13 @@ static Node *stmt(Token **rest, Token *tok) {
     if (equal(tok, "...")) {
       // [GNU] Case ranges, e.g. "case 1 ... 5:"
       end = const_expr(&tok, tok->next);
-      if (end < begin)
+
+      // The bounds are values of the controlling expression's type, so
+      // an unsigned 64-bit range may span 2^63.
+      Type *ty = current_switch->cond->ty;
+      bool empty = (ty->is_unsigned && ty->size == 8)
+        ? (uint64_t)end < (uint64_t)begin : end < begin;
+      if (empty)
         error_tok(tok, "empty case range specified");
     } else {
       end = begin;
